@@ -8,6 +8,12 @@ references everywhere) and corpus schemas (tests/test_cases/examples) are re-arr
   * 2-3 way splits into included documents (flat / chain / diamond / sub-directory / include cycle),
   * location spellings (relative, dotted, x/../, absolute path, file: URL) of includes, imports and of
     the schema itself,
+  * layouts of SEVERAL DIRECTORIES whose file names repeat (main.xsd, common.xsd | sub/part.xsd, sub/common.xsd |
+    sub/deep/common.xsd; the imported namespaces in ns_a.xsd and sub/ns_a.xsd): the same relative string names
+    different files depending on the directory of the document that writes it (topologies twin / twin-deep with
+    all-relative or mixed spellings, both orders of the main document's includes, `../` back references), and a
+    hand-written family of the same layout composed by xs:include / xs:redefine / xs:override (1.1) / xs:import
+    in every spelling and both orders of the independent composition children,
   * import order of the other namespaces,
   * HISTORIES of storage operations on one schema object: shallow copy, maps.copy()+build, pickle round trip,
     clear()+build() (once, twice, after/before a pickle or a copy), a rebuild triggered by registering one more
@@ -78,7 +84,9 @@ RULE = ('a case = (schema, arrangement or step of a storage history, probe set) 
         'wildcard-form:* / wildcard-combination:* = constraint forms and the ways (intersection of group refs, local '
         'anyAttribute, union by extension, nested groups, shared model groups) in which the generated types compute '
         'their wildcards from shared components, wildcard-pair:* = exhaustive family of ordered pairs of forms, '
-        'purity-monitor:components-fingerprinted')
+        'purity-monitor:components-fingerprinted, repeated-file-names:* = layouts of several directories with repeated '
+        'basenames (spelling mode, order of the main includes), directory-family:<composition>/<spelling>, '
+        'storage:<operation>/before-any-validation = copies taken from a schema object that has not validated yet')
 TRUSTED = ['component constructors are modelled by the free interpretation (a component = tree of what its '
            'constructor looked up); their purity is monitored, not proved: (1) the deps observed in one arrangement '
            'must predict the trace of every other arrangement, (2) every global component is fingerprinted (declared '
@@ -199,9 +207,18 @@ class Recorder:
         cls.installed = True
 
     def end_of_build(self) -> None:
+        # XSD 1.1 admits cycles of attribute group references; a repaired library completes the members of a cycle
+        # (and the groups that refer to them) AFTER their constructors returned (notes/fixes/C09-circular-
+        # attribute-groups-complete.patch).  Only that is exempted: an XSD 1.1 attribute group of a build in which
+        # a circular attribute group lookup happened, whose old entries are all still there.
+        cyc = any(t == 'circ' and n.startswith('2|') for (_, t, n) in self.events)
         for name, (comp, fp) in self.fp1.items():
             now = fingerprint(comp, False)
-            if now != fp:
+            if now != fp and cyc and name.startswith('2|') and getattr(comp, 'xsd_version', '1.0') != '1.0' \
+                    and isinstance(fp, list) and isinstance(now, list) and fp[:2] == now[:2] \
+                    and all(e in now[2] for e in fp[2]):
+                self.completed = getattr(self, 'completed', 0) + 1
+            elif now != fp:
                 self.mutations.append({'component': name, 'class': type(comp).__name__,
                                        'phase': 'between the return of its constructor and the end of the build',
                                        'change': diff_fp(fp, now)})
@@ -315,6 +332,19 @@ def arrangements(sc: Schema, rng: random.Random, n_perm: int, n_split: int) -> l
         topo = rng.choice(['flat', 'chain', 'diamond', 'subdir', 'cycle'] if k == 3 else ['flat', 'cycle', 'subdir'])
         out.append({'kind': f'split{k}', 'parts': parts, 'topology': topo, 'imports': rng.choice([[0, 1], [1, 0]]),
                     'open': rng.choice(['abs', 'url', 'dotted']), 'spells': [rng.choice(SPELLS) for _ in range(8)]})
+    # documents of SEVERAL DIRECTORIES whose file names repeat (same basename, different content): the same
+    # relative location string names different files depending on the directory of the including document
+    p = list(range(n))
+    rng.shuffle(p)
+    k = rng.choice([4, 4, 5])
+    cuts = sorted(rng.sample(range(0, n + 1), k - 1))
+    parts = [p[a:b] for a, b in zip([0] + cuts, cuts + [n])]
+    mode = rng.choice(['all-relative', 'all-relative', 'mixed'])
+    out.append({'kind': f'split{k}', 'parts': parts, 'topology': 'twin' if k == 4 else 'twin-deep',
+                'imports': rng.choice([[0, 1], [1, 0]]), 'open': rng.choice(['abs', 'url', 'dotted']),
+                'spells': ['rel'] * 8 if mode == 'all-relative' else [rng.choice(SPELLS) for _ in range(8)],
+                'twin': {'spelling': mode, 'main_order': rng.choice([[1, 2], [2, 1]]), 'back': rng.random() < 0.5,
+                         'sub_order_swapped': rng.random() < 0.5}})
     return out
 
 
@@ -352,8 +382,23 @@ def write_arrangement(sc: Schema, arr: dict, root: str) -> dict:
             inc[0] = [1]
             inc[1] = [2]
             inc[2] = [0]
-    sp = iter(arr['spells'] * 4)
     imports_all = sc.import_list()
+    if topo.startswith('twin'):
+        tw = arr['twin']
+        names = ['main.xsd', 'common.xsd', 'sub/part.xsd', 'sub/common.xsd'] + (['sub/deep/common.xsd'] if k == 5 else [])
+        inc[0] = list(tw['main_order'])
+        inc[2] = [3] + ([4] if k == 5 else [])
+        if tw['sub_order_swapped']:
+            inc[2].reverse()
+        if tw['back']:
+            inc[3] = [1]                # '../common.xsd'
+        if k == 5:
+            inc[4] = [3]                # '../common.xsd' seen from sub/deep = sub/common.xsd
+        # … and the imported namespaces: urn:b lives in sub/ns_a.xsd, the basename of urn:a's document
+        if len(imports_all) == 2:
+            imports_all = [imports_all[0], (imports_all[1][0], 'sub/ns_a.xsd')]
+            files['sub/ns_a.xsd'] = files.pop('ns_b.xsd')
+    sp = iter(arr['spells'] * 6)
     locs: list[dict] = []
     docs: list[dict] = []
     for i in range(k):
@@ -383,7 +428,22 @@ def write_arrangement(sc: Schema, arr: dict, root: str) -> dict:
         with open(p, 'w') as f:
             f.write(text)
     main = os.path.join(root, 'main.xsd')
+    files['__root__'] = root       # absolute / file-URL spellings embed it: `materialise` relocates them at replay
     return {'main': main, 'files': files, 'locs': locs, 'docs': docs}
+
+
+def materialise(files: dict, newroot: str) -> None:
+    """writes stored arrangement files under `newroot`, relocating the absolute locations they contain"""
+    old = files.get('__root__')
+    for rel, text in files.items():
+        if rel == '__root__':
+            continue
+        if old:
+            text = text.replace(old, newroot)
+        pth = os.path.join(newroot, rel)
+        os.makedirs(os.path.dirname(pth), exist_ok=True)
+        with open(pth, 'w') as f:
+            f.write(text)
 
 
 def open_source(main: str, how: str) -> str:
@@ -556,7 +616,7 @@ def diff_obs(a: dict, b: dict) -> Optional[dict]:
     return None
 
 
-def location_checks(ctx: Ctx, batch: Batch, case: dict, written: dict, schema: Any) -> None:
+def location_checks(ctx: Ctx, batch: Batch, case: dict, written: dict, schema: Any, fail_extra: Optional[dict] = None) -> None:
     from xmlschema.utils.urls import normalize_url
     for l in written['locs']:
         loc = l['loc']
@@ -588,7 +648,7 @@ def location_checks(ctx: Ctx, batch: Batch, case: dict, written: dict, schema: A
     # property on the real code: every file registered exactly once
     if len({tuple(x) for x in real_order}) != len(real_order) or len(real_order) != len(docs):
         ctx.failure('a document of the arrangement is registered twice or not at all',
-                    case, {'registered': real_order, 'files': [d['path'] for d in written['docs']]})
+                    dict(case, **(fail_extra or {})), {'registered': real_order, 'files': [d['path'] for d in written['docs']]})
 
 
 # operations of a storage history.  Each returns (schema to observe, kind): kind 'same' = the same object graph
@@ -865,7 +925,7 @@ def one_schema(ctx: Ctx, drv: Optional[Driver], batch: Batch, idx: int, tmp: str
     for ai, arr in enumerate(arrs):
         root = os.path.join(tmp, f's{idx}', f'a{ai}')
         written = write_arrangement(sc, arr, root)
-        case = {'schema': idx, 'arrangement': {k: arr[k] for k in ('kind', 'topology', 'imports', 'open')},
+        case = {'schema': idx, 'arrangement': {k: arr[k] for k in ('kind', 'topology', 'imports', 'open', 'twin') if k in arr},
                 'spells': arr['spells'][:4], 'parts': [len(p) for p in arr['parts']], 'class': cls,
                 'registry': feats.plan}
         src = open_source(written['main'], arr['open'])
@@ -895,9 +955,13 @@ def one_schema(ctx: Ctx, drv: Optional[Driver], batch: Batch, idx: int, tmp: str
                             dict(case, base_files=texts0, files=written['files'], probes=probes, open=arr['open']), d)
         nontrivial = nested_enter(view['events']) and both
         ctx.case(case, nontrivial, tag='arrangement:' + arr['kind'] + ('/' + arr['topology'] if arr['kind'].startswith('split') else ''))
+        if 'twin' in arr:
+            ctx.count('repeated-file-names:spelling-' + arr['twin']['spelling'])
+            ctx.count('repeated-file-names:main-includes-' + ('common-first' if arr['twin']['main_order'][0] == 1 else 'sub-first'))
         ctx.count('forward-refs-resolved-on-demand' if nested_enter(view['events']) else 'no-forward-ref')
         check_model_build(ctx, batch, case, view, base_view if view is not base_view else None)
-        location_checks(ctx, batch, case, written, schema)
+        location_checks(ctx, batch, case, written, schema,
+                        {'base_files': texts0, 'files': written['files'], 'probes': probes, 'open': arr['open']})
         # histories of storage operations on this arrangement: the full one on the base, a seeded one on the last split
         is_base = view is base_view
         if is_base or ai == len(arrs) - 1:
@@ -909,6 +973,29 @@ def one_schema(ctx: Ctx, drv: Optional[Driver], batch: Batch, idx: int, tmp: str
                     sd = getattr(xmlschema, cls)(src, build=False)
                     pre = sd.built
                     sd.build()
+                # storage operations applied BEFORE the schema object has validated anything (cached properties of
+                # the schema are still empty): the copies must behave like the schema itself
+                for cname, mk in ((('copy.copy', lambda: copy.copy(sd)), ('pickle', lambda: pickle.loads(pickle.dumps(sd))),
+                                   ('maps.copy+build', lambda: _op_maps_copy(sd, {})[0])) if is_base or not ctx.quick()
+                                  else (('copy.copy', lambda: copy.copy(sd)),)):
+                    ccase = dict(case, storage='cold:' + cname)
+                    try:
+                        oc = observe(mk(), probes)
+                    except Exception as e:   # noqa
+                        ctx.failure('storage operation on a schema that has not validated yet fails: ' + cname,
+                                    dict(ccase, base_files=texts0, files=written['files'], probes=probes, open=arr['open']),
+                                    {'error': type(e).__name__, 'message': norm_text(str(e))[:300]})
+                        continue
+                    ctx.case(ccase, both, tag='storage:' + cname + '/before-any-validation')
+                    dc = diff_obs(base_obs, oc)
+                    if dc is not None:
+                        fid = known_match(ccase, dc)
+                        if fid:
+                            ctx.known_hit(fid, ccase, dc)
+                        else:
+                            ctx.failure('storage operation on a schema that has not validated yet changes the schema: '
+                                        + cname + ': ' + dc['what'],
+                                        dict(ccase, base_files=texts0, files=written['files'], probes=probes, open=arr['open']), dc)
                 od = observe(sd, probes)
                 dd = diff_obs(base_obs, od)
                 ctx.case(dcase, nested_enter(view['events']) and both, tag='storage:deferred-build' + ('' if not pre else '/was-built-anyway'))
@@ -1090,6 +1177,7 @@ HEADER_FAMILY = [
 # on every run besides the seeded ones: (document order of the global names, names moved to the included part).
 F1_NAME = 'attribute wildcard of a referenced group under an extension'
 F2_NAME = "notQName='##defined' attribute wildcard (1.1)"
+F3_NAME = 'circular attribute groups (1.1)'
 REGISTRY_FAMILY = [
     (F1_NAME, '''<xs:schema xmlns:xs="http://www.w3.org/2001/XMLSchema" targetNamespace="urn:h" xmlns:h="urn:h" elementFormDefault="qualified">
  <xs:attributeGroup name="AG"><xs:anyAttribute namespace="urn:x" processContents="skip"/></xs:attributeGroup>
@@ -1114,6 +1202,21 @@ REGISTRY_FAMILY = [
                   '<h:r xmlns:h="urn:h" h:other="x"/>', '<h:s xmlns:h="urn:h" h:ga="1"/>'],
      [{'order': ['T', 'r', 's', 'ga', 'gb'], 'part': ['ga', 'gb']},
       {'order': ['ga', 'T', 'r', 's', 'gb'], 'part': ['T', 'r', 's', 'gb']}]),
+    (F3_NAME, '''<xs:schema xmlns:xs="http://www.w3.org/2001/XMLSchema" targetNamespace="urn:h" xmlns:h="urn:h" elementFormDefault="qualified">
+ <xs:attributeGroup name="ag1"><xs:attribute name="a" type="xs:int"/><xs:attributeGroup ref="h:ag2"/></xs:attributeGroup>
+ <xs:attributeGroup name="ag2"><xs:attribute name="b" type="xs:int"/><xs:attributeGroup ref="h:ag3"/></xs:attributeGroup>
+ <xs:attributeGroup name="ag3"><xs:attribute name="c" type="xs:int"/><xs:attributeGroup ref="h:ag1"/></xs:attributeGroup>
+ <xs:attributeGroup name="agU"><xs:attribute name="u" type="xs:int"/><xs:attributeGroup ref="h:ag2"/></xs:attributeGroup>
+ <xs:complexType name="T1"><xs:attributeGroup ref="h:ag1"/></xs:complexType>
+ <xs:complexType name="T2"><xs:attributeGroup ref="h:ag2"/></xs:complexType>
+ <xs:complexType name="T3"><xs:attributeGroup ref="h:ag3"/></xs:complexType>
+ <xs:complexType name="TU"><xs:attributeGroup ref="h:agU"/></xs:complexType>
+ <xs:element name="e1" type="h:T1"/><xs:element name="e2" type="h:T2"/><xs:element name="e3" type="h:T3"/><xs:element name="eu" type="h:TU"/>
+</xs:schema>''', ['<h:e1 xmlns:h="urn:h" a="1" b="2" c="3"/>', '<h:e2 xmlns:h="urn:h" a="1" b="2" c="3"/>',
+                  '<h:e3 xmlns:h="urn:h" a="1" b="2" c="3"/>', '<h:eu xmlns:h="urn:h" a="1" b="2" c="3" u="4"/>',
+                  '<h:e1 xmlns:h="urn:h" a="x" u="4"/>'],
+     [{'order': ['ag3', 'ag2', 'ag1', 'agU', 'T1', 'T2', 'T3', 'TU', 'e1', 'e2', 'e3', 'eu'], 'part': []},
+      {'order': ['TU', 'eu', 'agU', 'ag2', 'e1', 'e2', 'e3', 'T1', 'T2', 'T3', 'ag1', 'ag3'], 'part': ['T1', 'T2', 'T3', 'ag1', 'ag3']}]),
     ("element wildcards resolved through the global maps: strict / lax / notQName='##defined' (1.1)", '''<xs:schema xmlns:xs="http://www.w3.org/2001/XMLSchema" targetNamespace="urn:h" xmlns:h="urn:h" elementFormDefault="qualified">
  <xs:element name="box"><xs:complexType><xs:sequence>
    <xs:any namespace="##targetNamespace" processContents="strict" minOccurs="0" maxOccurs="2"/>
@@ -1135,6 +1238,17 @@ def known_match(case: dict, detail: dict) -> Optional[str]:
     """`detail` = the difference between the original document and one arrangement of it (diff_obs).  Returns the
     id of the listed finding of notes/findings/C09.json that explains exactly this difference, else None."""
     # (C09-F1 and C09-F2 are fixed — c02201c, a59bff1 —: no rule any more, a recurrence is a violation)
+    if not isinstance(detail, dict) or detail.get('what') != 'errors of a probe instance differ':
+        return None
+    a, b = detail['base'], detail['variant']
+    if case.get('corpus') == 'registry-family: ' + F3_NAME:
+        # C09-F3: which member of a cycle of XSD 1.1 attribute groups lacks the attributes of the others
+        extra = [e for e in a if e not in b] + [e for e in b if e not in a]
+        if extra and all(len(e) == 3 and re.search(r"'[abc]' attribute not allowed for element", e[2]) for e in extra):
+            return 'C09-F3'
+    if case.get('storage') == 'cold:copy.copy' and len(b) == 1 and b[0][:2] == ['raised', 'XMLSchemaNotBuiltError']:
+        # C09-F4: the shallow copy of a built schema that has not validated anything yet is "not built"
+        return 'C09-F4'
     return None
 
 
@@ -1224,6 +1338,116 @@ def wildcard_pairs(ctx: Ctx, tmp: str) -> None:
             for case, files, err in rejected:
                 ctx.failure('an order of the declarations is rejected while another order of the same declarations is accepted',
                             dict(case, base_files=base[1], files=files, probes=probes, open='abs'), err)
+
+
+# =============================================================================================
+#  schemas of several directories with repeated file names, composed by include / redefine / override / import:
+#  every spelling of every location and both orders of the composition children give the same schema
+#  (redefine / override are ordered by definition: only spelling and the order of INDEPENDENT children vary)
+# =============================================================================================
+DIR_HEAD = ('<xs:schema xmlns:xs="http://www.w3.org/2001/XMLSchema" targetNamespace="urn:h" xmlns:h="urn:h" '
+            'xmlns:o="urn:o" elementFormDefault="qualified">\n')
+DIR_FAMILY = [
+    # (name, processor, {relative path: [composition children as (tag, target path, body)], declarations}, probes)
+    ('include + redefine of twins', 'XMLSchema10', 'redefine'),
+    ('include + override of twins (1.1)', 'XMLSchema11', 'override'),
+    ('plain includes of twins', 'XMLSchema10', 'include'),
+]
+
+
+def dir_family_files(how: str, spells: list, swap_main: bool, swap_sub: bool, root: str) -> dict:
+    """files of the layout  main.xsd, common.xsd, other.xsd | sub/part.xsd, sub/common.xsd, sub/other.xsd:
+    main composes common.xsd (by `how`) and includes sub/part.xsd; sub/part.xsd composes ITS common.xsd (by `how`)
+    and imports urn:o from ITS other.xsd, main imports nothing from other.xsd of its own directory but includes it"""
+    sp = iter(spells * 6)
+
+    def loc(frm: str, to: str) -> str:
+        return spell(os.path.join(root, to), os.path.dirname(os.path.join(root, frm)), next(sp))
+
+    def compose(frm: str, to: str, tname: str, base: str, facet: str) -> str:
+        if how == 'include':
+            return f'<xs:include schemaLocation="{loc(frm, to)}"/>\n'
+        b = f'h:{tname}' if how == 'redefine' else base
+        return (f'<xs:{how} schemaLocation="{loc(frm, to)}"><xs:simpleType name="{tname}"><xs:restriction base="{b}">'
+                f'{facet}</xs:restriction></xs:simpleType></xs:{how}>\n')
+    m = [compose('main.xsd', 'common.xsd', 'Code', 'xs:string', '<xs:maxLength value="3"/>'),
+         f'<xs:include schemaLocation="{loc("main.xsd", "sub/part.xsd")}"/>\n',
+         f'<xs:include schemaLocation="{loc("main.xsd", "other.xsd")}"/>\n']
+    if swap_main:
+        m = [m[1], m[2], m[0]]
+    s_ = [compose('sub/part.xsd', 'sub/common.xsd', 'Size', 'xs:int', '<xs:maxInclusive value="10"/>'),
+          f'<xs:import namespace="urn:o" schemaLocation="{loc("sub/part.xsd", "sub/other.xsd")}"/>\n']
+    if swap_sub:
+        s_ = [s_[1], s_[0]]      # (xs:import may precede or follow xs:redefine / xs:include)
+    return {
+        'main.xsd': DIR_HEAD + ''.join(m) + '<xs:element name="doc"><xs:complexType><xs:sequence>'
+                    '<xs:element name="code" type="h:Code"/><xs:element name="size" type="h:Size"/>'
+                    '<xs:element name="tag" type="h:Tag"/><xs:element ref="h:item" minOccurs="0"/>'
+                    '</xs:sequence></xs:complexType></xs:element>\n' + TAIL,
+        'common.xsd': DIR_HEAD + '<xs:simpleType name="Code"><xs:restriction base="xs:string"><xs:maxLength value="5"/>'
+                      '</xs:restriction></xs:simpleType>\n' + TAIL,
+        'other.xsd': DIR_HEAD + '<xs:simpleType name="Tag"><xs:restriction base="xs:string"><xs:enumeration value="x"/>'
+                     '<xs:enumeration value="y"/></xs:restriction></xs:simpleType>\n' + TAIL,
+        'sub/part.xsd': DIR_HEAD + ''.join(s_) + '<xs:element name="item"><xs:complexType><xs:sequence>'
+                        '<xs:element name="size" type="h:Size"/><xs:element ref="o:ext" minOccurs="0"/></xs:sequence>'
+                        '</xs:complexType></xs:element>\n' + TAIL,
+        'sub/common.xsd': DIR_HEAD + '<xs:simpleType name="Size"><xs:restriction base="xs:int"><xs:maxInclusive value="100"/>'
+                          '</xs:restriction></xs:simpleType>\n' + TAIL,
+        'sub/other.xsd': '<xs:schema xmlns:xs="http://www.w3.org/2001/XMLSchema" targetNamespace="urn:o" '
+                         'elementFormDefault="qualified"><xs:element name="ext" type="xs:boolean"/></xs:schema>\n',
+    }
+
+
+DIR_PROBES = ['<h:doc xmlns:h="urn:h" xmlns:o="urn:o"><h:code>abc</h:code><h:size>7</h:size><h:tag>x</h:tag>'
+              '<h:item><h:size>9</h:size><o:ext>true</o:ext></h:item></h:doc>',
+              '<h:doc xmlns:h="urn:h"><h:code>abcd</h:code><h:size>50</h:size><h:tag>z</h:tag></h:doc>',
+              '<h:doc xmlns:h="urn:h" xmlns:o="urn:o"><h:code>abcdef</h:code><h:size>500</h:size><h:tag>y</h:tag>'
+              '<h:item><h:size>x</h:size><o:ext>2</o:ext></h:item></h:doc>']
+
+
+def directory_family(ctx: Ctx, tmp: str) -> None:
+    for fi, (name, cls, how) in enumerate(DIR_FAMILY):
+        variants = [(['abs'], False, False)]
+        for spl in (['rel'], ['dot'], ['updown'], ['url']):
+            for sm in (False, True):
+                variants.append((spl, sm, sm))
+        variants.append((['rel'], False, True))
+        for _ in range(ctx.pick(3, 12)):
+            variants.append(([ctx.rng.choice(SPELLS) for _ in range(5)], ctx.rng.random() < 0.5, ctx.rng.random() < 0.5))
+        base = None
+        for vi, (spl, sm, ss) in enumerate(variants):
+            root = os.path.join(tmp, f'dir{fi}_{vi}')
+            files = dir_family_files(how, spl, sm, ss, root)
+            files['__root__'] = root
+            materialise(files, root)
+            case = {'directory-family': name, 'class': cls, 'spells': spl, 'main children swapped': sm,
+                    'sub children swapped': ss}
+            extra = {'base_files': base[1] if base else files, 'files': files, 'probes': DIR_PROBES, 'open': 'abs'}
+            try:
+                schema, view = build_real(os.path.join(root, 'main.xsd'), cls=cls)
+            except Exception as e:   # noqa
+                if base is None:
+                    ctx.count('directory-family: base does not build')
+                    break
+                ctx.failure('a spelling of the schema locations is rejected while the absolute spelling is accepted',
+                            dict(case, **extra), {'error': type(e).__name__, 'message': norm_text(str(e))[:300]})
+                continue
+            obs = observe(schema, DIR_PROBES)
+            purity(ctx, case, extra)
+            ctx.case(case, True, tag='directory-family:' + how + '/' + ('mixed' if len(spl) > 1 else spl[0]))
+            regs = sorted(os.path.relpath(s.source.url[7:], root) for s in schema.maps.namespaces['urn:h'])
+            if regs != sorted(k for k in files if k not in ('sub/other.xsd', '__root__')):
+                ctx.failure('a document of the layout is registered twice or not at all', dict(case, **extra),
+                            {'registered': regs, 'files': sorted(k for k in files if k != '__root__')})
+            if base is None:
+                base = (obs, files)
+                ctx.count('directory-family-probes:invalid', sum(1 for p in obs['probes'] if p['errors']))
+                ctx.count('directory-family-probes:valid', sum(1 for p in obs['probes'] if not p['errors']))
+            else:
+                dd = diff_obs(base[0], obs)
+                if dd is not None:
+                    ctx.failure('the spelling of a schema location / the order of independent composition children changes '
+                                'the schema: ' + dd['what'], dict(case, **extra), dd)
 
 
 def header_family(ctx: Ctx, tmp: str, batch: Optional[Batch] = None) -> None:
@@ -1351,6 +1575,7 @@ def run(ctx: Ctx, driver_ok: bool) -> None:
         header_family(ctx, tmp, batch)
         registry_family(ctx, tmp, batch)
         wildcard_pairs(ctx, tmp)
+        directory_family(ctx, tmp)
         corpus(ctx, tmp, batch)
         flush(ctx, batch, drv)
         n = ctx.pick(70, 700)
@@ -1466,11 +1691,7 @@ def replay(ctx: Ctx, obj: dict) -> int:
     if case.get('purity') and case.get('files'):
         tmp = tempfile.mkdtemp(prefix='c09-r-')
         try:
-            for rel, text in case['files'].items():
-                pth = os.path.join(tmp, rel)
-                os.makedirs(os.path.dirname(pth), exist_ok=True)
-                with open(pth, 'w') as f:
-                    f.write(text)
+            materialise(case['files'], tmp)
             src = open_source(os.path.join(tmp, 'main.xsd'), case.get('open', 'abs'))
             try:
                 schema, _ = build_real(src, cls=case.get('class', 'XMLSchema10'))
@@ -1493,11 +1714,7 @@ def replay(ctx: Ctx, obj: dict) -> int:
         res = []
         for tag in ('base_files', 'files'):
             root = os.path.join(tmp, tag)
-            for rel, text in case[tag].items():
-                p = os.path.join(root, rel)
-                os.makedirs(os.path.dirname(p), exist_ok=True)
-                with open(p, 'w') as f:
-                    f.write(text)
+            materialise(case[tag], root)
             main = os.path.join(root, 'main.xsd')
             src = open_source(main, case.get('open', 'abs')) if tag == 'files' else main
             try:
@@ -1506,7 +1723,13 @@ def replay(ctx: Ctx, obj: dict) -> int:
                 print(f'{tag}: build fails: {type(e).__name__}: {str(e)[:300]}')
                 res.append(None)
                 continue
-            if tag == 'files' and case.get('storage') == 'deferred-build':
+            if tag == 'files' and str(case.get('storage', '')).startswith('cold:'):
+                import xmlschema
+                sd = getattr(xmlschema, case.get('class', 'XMLSchema10'))(src, build=False)
+                sd.build()
+                schema = {'cold:copy.copy': lambda: copy.copy(sd), 'cold:pickle': lambda: pickle.loads(pickle.dumps(sd)),
+                          'cold:maps.copy+build': lambda: _op_maps_copy(sd, {})[0]}[case['storage']]()
+            elif tag == 'files' and case.get('storage') == 'deferred-build':
                 import xmlschema
                 schema = getattr(xmlschema, case.get('class', 'XMLSchema10'))(src, build=False)
                 schema.build()
